@@ -39,16 +39,78 @@ type fieldPrint struct {
 	Index  int    `json:"index"`
 }
 
+type typePrint struct {
+	Pkg   string `json:"pkg"`
+	Name  string `json:"name"`
+	Shape string `json:"shape"`
+}
+
 type anchorFile struct {
 	Funcs  []fnPrint    `json:"funcs"`
 	Fields []fieldPrint `json:"fields"`
+	Types  []typePrint  `json:"types"`
+}
+
+// renamed named types: "pkgpath.NewName" -> "pkgpath.OldName"; applied textually to every type string the checker
+// prints or compares (function names, receivers, signatures, field types)
+var typeRenames [][2]string
+
+func normTypeNames(s string) string {
+	for _, r := range typeRenames {
+		if strings.Contains(s, r[0]) {
+			s = replaceTypeName(s, r[0], r[1])
+		}
+	}
+	return s
+}
+
+// replaceTypeName replaces whole occurrences of a qualified type name (not a prefix of a longer identifier).
+func replaceTypeName(s, from, to string) string {
+	var b strings.Builder
+	for {
+		i := strings.Index(s, from)
+		if i < 0 {
+			b.WriteString(s)
+			return b.String()
+		}
+		j := i + len(from)
+		if j < len(s) && (s[j] == '_' || s[j] >= '0' && s[j] <= '9' || s[j] >= 'a' && s[j] <= 'z' || s[j] >= 'A' && s[j] <= 'Z') {
+			b.WriteString(s[:j])
+			s = s[j:]
+			continue
+		}
+		b.WriteString(s[:i])
+		b.WriteString(to)
+		s = s[j:]
+	}
+}
+
+func typeShape(tn *types.TypeName) string {
+	self := tn.Pkg().Path() + "." + tn.Name()
+	switch u := tn.Type().Underlying().(type) {
+	case *types.Struct:
+		var parts []string
+		for i := 0; i < u.NumFields(); i++ {
+			parts = append(parts, replaceTypeName(u.Field(i).Type().String(), self, "SELF"))
+		}
+		return "struct{" + strings.Join(parts, ";") + "}"
+	case *types.Interface:
+		var parts []string
+		for i := 0; i < u.NumMethods(); i++ {
+			parts = append(parts, u.Method(i).Name())
+		}
+		return "interface{" + strings.Join(parts, ";") + "}"
+	default:
+		return replaceTypeName(u.String(), self, "SELF")
+	}
 }
 
 // global alias tables (one analysed program per process)
 var (
-	fnAlias    = map[*ssa.Function]string{} // renamed function -> old simple name (method or function name)
-	fieldAlias = map[*types.Var]string{}    // renamed field -> old name
-	fieldByOld = map[string]*types.Var{}    // "pkg.Struct.oldname" -> field
+	fnAlias        = map[*ssa.Function]string{}   // renamed function -> old simple name (method or function name)
+	fieldAlias     = map[*types.Var]string{}      // renamed field -> old name
+	fieldByOld     = map[string]*types.Var{}      // "pkg.Struct.oldname" -> field
+	typeAliasByOld = map[string]*types.TypeName{} // "pkg.OldName" -> renamed type
 )
 
 // fieldName is the name rules should compare against: the old name of a renamed field.
@@ -74,7 +136,7 @@ func recvString(f *ssa.Function) string {
 	if f.Signature.Recv() == nil {
 		return ""
 	}
-	return f.Signature.Recv().Type().String()
+	return normTypeNames(f.Signature.Recv().Type().String())
 }
 
 func sigString(f *ssa.Function) string {
@@ -91,7 +153,7 @@ func sigString(f *ssa.Function) string {
 	if s.Variadic() {
 		v = "..."
 	}
-	return "func(" + strings.Join(ps, ", ") + v + ") (" + strings.Join(rs, ", ") + ")"
+	return normTypeNames("func(" + strings.Join(ps, ", ") + v + ") (" + strings.Join(rs, ", ") + ")")
 }
 
 func (c *Ctx) fnFeatures(f *ssa.Function) []string {
@@ -143,6 +205,9 @@ func (c *Ctx) makeAnchors() *anchorFile {
 			if !ok {
 				continue
 			}
+			if _, isNamed := tn.Type().(*types.Named); isNamed && !tn.IsAlias() {
+				af.Types = append(af.Types, typePrint{Pkg: rp.PkgPath, Name: n, Shape: typeShape(tn)})
+			}
 			st, ok := tn.Type().Underlying().(*types.Struct)
 			if !ok {
 				continue
@@ -185,7 +250,36 @@ func (c *Ctx) resolveRenames(vdir string) {
 	if json.Unmarshal(b, &af) != nil {
 		return
 	}
-	// ---- fields first (function features mention field names)
+	// ---- named types first (receivers, signatures and field types mention them)
+	knownT := map[string]bool{}
+	for _, tp := range af.Types {
+		knownT[tp.Pkg+"."+tp.Name] = true
+	}
+	for _, tp := range af.Types {
+		pk := c.AllPkgs[tp.Pkg]
+		if pk == nil || pk.Types == nil || pk.Types.Scope().Lookup(tp.Name) != nil {
+			continue
+		}
+		var cands []*types.TypeName
+		for _, n := range pk.Types.Scope().Names() {
+			tn, ok := pk.Types.Scope().Lookup(n).(*types.TypeName)
+			if !ok || knownT[tp.Pkg+"."+n] {
+				continue
+			}
+			if _, isNamed := tn.Type().(*types.Named); !isNamed {
+				continue
+			}
+			if normTypeNames(typeShape(tn)) == tp.Shape {
+				cands = append(cands, tn)
+			}
+		}
+		if len(cands) == 1 {
+			typeRenames = append(typeRenames, [2]string{tp.Pkg + "." + cands[0].Name(), tp.Pkg + "." + tp.Name})
+			typeAliasByOld[tp.Pkg+"."+tp.Name] = cands[0]
+			c.Renames = append(c.Renames, fmt.Sprintf("type %s.%s is now called %s", shortPkg(tp.Pkg), tp.Name, cands[0].Name()))
+		}
+	}
+	// ---- fields (function features mention field names)
 	type skey struct{ pkg, st string }
 	known := map[skey]map[string]bool{}
 	for _, fp := range af.Fields {
@@ -202,7 +296,10 @@ func (c *Ctx) resolveRenames(vdir string) {
 		}
 		tn, ok := pk.Types.Scope().Lookup(fp.Struct).(*types.TypeName)
 		if !ok {
-			continue
+			tn = typeAliasByOld[fp.Pkg+"."+fp.Struct]
+			if tn == nil {
+				continue
+			}
 		}
 		st, ok := tn.Type().Underlying().(*types.Struct)
 		if !ok {
@@ -215,7 +312,7 @@ func (c *Ctx) resolveRenames(vdir string) {
 			if f.Name() == fp.Name {
 				present = true
 			}
-			if !known[skey{fp.Pkg, fp.Struct}][f.Name()] && f.Type().String() == fp.Type {
+			if !known[skey{fp.Pkg, fp.Struct}][f.Name()] && normTypeNames(f.Type().String()) == fp.Type {
 				cands = append(cands, f)
 			}
 		}
@@ -243,6 +340,12 @@ func (c *Ctx) resolveRenames(vdir string) {
 		}
 	}
 	// ---- functions
+	if len(typeRenames) > 0 {
+		c.fnByName = map[string]*ssa.Function{}
+		for _, f := range c.RepoFns {
+			c.fnByName[c.fnName(f)] = f
+		}
+	}
 	knownFn := map[string]bool{}
 	for _, fp := range af.Funcs {
 		knownFn[fp.Name] = true
